@@ -267,13 +267,13 @@ Section Run.
   (* ---------------------------------------------------------------- the file phase *)
 
   Variable merged : list block.
-  Hypothesis Hmode : j_mode c = 0.
+  Hypothesis Hmode2 : (j_mode c =? 2) = false.     (* from a number or from a cursor: joins ask for a block number *)
   Hypothesis Hmerged_U : forall b, In b merged -> In b U.
 
   Lemma join_mode0 w lowest e burst : join_try c w lowest e = Some burst ->
     blocks_from_num (h_f (w_hub w)) (bnum (eblk e)) = BOk burst /\ h_ready (w_hub w) = true.
   Proof.
-    unfold join_try. rewrite Hmode. cbn [N.eqb].
+    unfold join_try. rewrite Hmode2.
     destruct ((lowest <=? bnum (eblk e)) && matches_new (estep e)); [|discriminate].
     destruct (blocks_from_num (h_f (w_hub w)) (bnum (eblk e))) as [evs| | |]; try discriminate.
     destruct (h_ready (w_hub w)); [|discriminate]. intros H. injection H as <-. auto.
@@ -287,7 +287,7 @@ Section Run.
     (forall z r, Dpre ++ D' = z :: r -> bnum z <= start) ->
     let res := file_phase fuel c w lowest (map fev D') JNil count ps out in
     exists st, sfold J0 (fst res) = Some st /\
-      (snd res = JNil -> rev st = Dpre ++ D' \/ from_num start (rev st) = from_num start canon).
+      (snd res = JNil -> rev st = Dpre ++ D' \/ (D' <> [] /\ from_num start (rev st) = from_num start canon)).
   Proof.
     induction D' as [|bn D' IH]; intros Dpre out w lowest count ps HW Htip Hagr Hout [x0 Hl] Hin Hbot res.
     - unfold res. cbn [map file_phase fst snd]. exists (rev Dpre). split; [exact Hout|].
@@ -314,7 +314,7 @@ Section Run.
                     (ex_intro _ x0 HlD) HDU Hbot') as (J1 & HJ1 & HR).
         destruct (live_run fuel w V burst count ps J0 out (rev Dpre) J1 (conj Hrd (conj HV Hrest)) Htip Hout HJ1 HR)
           as (st & Hst & Hfin).
-        exists st. split; [exact Hst|]. intros Hn. right. exact (Hfin Hn).
+        exists st. split; [exact Hst|]. intros Hn. right. split; [discriminate | exact (Hfin Hn)].
       + (* delivered from the file *)
         rewrite chain_default. cbn [nu_ev file_event estep matches_new orb].
         destruct (pauses_after (count + 1) ps w) as [m Em].
@@ -330,13 +330,14 @@ Section Run.
         specialize (IH (Dpre ++ [bn]) (out ++ [fev bn]) (world_after c m w)
                       (if (lowest <=? bnum (eblk (fev bn))) && matches_new (estep (fev bn)) then hub_lowest (w_hub w) else lowest)
                       (count + 1) ps' (wok_after m w HW) (tip_after w m Htip) (agree_after w m merged Hagr) Hout').
-        rewrite EDD in IH. exact (IH (ex_intro _ x0 Hl) Hin Hbot).
+        rewrite EDD in IH. destruct (IH (ex_intro _ x0 Hl) Hin Hbot) as (st & Hst & Hfin).
+        exists st. split; [exact Hst|]. intros Hn. destruct (Hfin Hn) as [H|[_ H]]; [left; exact H | right; split; [discriminate | exact H]].
   Qed.
 
   (* ---------------------------------------------------------------- Stream.Run from a block number *)
 
   Lemma stream_num w ps merged_end forked :
-    run_start c w = start ->
+    j_mode c = 0 -> run_start c w = start ->
     WOK w -> eventual_tip c w canon -> files_agree c w merged ->
     let D := file_delivery merged start file_bound (j_bundle c) in
     (exists x, lnk x D) -> (forall z r, D = z :: r -> bnum z <= start) ->
@@ -344,14 +345,15 @@ Section Run.
     exists st, sfold [] (fst res) = Some st /\
       (snd res = JNil -> rev st = D \/ from_num start (rev st) = from_num start canon).
   Proof.
-    intros Hstart HW Htip Hagr D HlD HbotD res.
+    intros Hmode Hstart HW Htip Hagr D HlD HbotD res.
     assert (HinD : forall b, In b ([] ++ D) -> In b merged).
     { intros b Hb. cbn [app] in Hb. unfold D, file_delivery in Hb. apply filter_In in Hb as [Hb _]. exact Hb. }
     assert (Hfile : forall fuel lowest,
               exists st, sfold [] (fst (file_phase fuel c w lowest (map fev D) JNil 0 ps [])) = Some st /\
                 (snd (file_phase fuel c w lowest (map fev D) JNil 0 ps []) = JNil ->
                  rev st = D \/ from_num start (rev st) = from_num start canon)).
-    { intros fuel lowest. exact (file_run fuel [] D [] [] w lowest 0 ps HW Htip Hagr eq_refl HlD HinD HbotD). }
+    { intros fuel lowest. destruct (file_run fuel [] D [] [] w lowest 0 ps HW Htip Hagr eq_refl HlD HinD HbotD) as (st & Hst & Hfin).
+      exists st. split; [exact Hst|]. intros Hn. destruct (Hfin Hn) as [H|[_ H]]; [left; exact H | right; exact H]. }
     unfold res, stream_run. cbv zeta.
     change (abs_start (j_first c) (j_start c) match hub_head (w_hub w) with Some (r, _) => rn r | None => 0 end)
       with (run_start c w).
